@@ -22,7 +22,8 @@ def structures(tier, seed):
     if tier == "quick":
         return [("AB_rev", ("grid", 2, 1, 1, 1)), ("ABC_bi", ("graph", "triangle")), ("order3_repeat", ("grid", 2, 2, 1, 4)),
                 ("none", ("graph", "path_isolated")), ("none", ("grid", 3, 1, 1, 1)), ("dimer_source", ("graph", "pair")),
-                ("AB_rev", ("graph", "parallel")), ("order4", ("grid", 2, 1, 1, 0)), ("quad", ("grid", 2, 1, 1, 1))]
+                ("AB_rev", ("graph", "parallel")), ("order4", ("grid", 2, 1, 1, 0)), ("quad", ("grid", 2, 1, 1, 1)),
+                ("none", ("grid", 1, 2, 2, 2)), ("AB_rev", ("grid", 1, 1, 3, 3)), ("none", ("grid", 2, 1, 2, 0))]       # flat grids: a unit-size axis BELOW an extended one (index offsets of two axes coincide)
     return catalogue.pairs("thorough", seed, engine_multigraph=True)
 
 
